@@ -494,9 +494,9 @@ class Ref:
                     kwargs[key] = self.process(vn, params[key]['type'])
                 except _Fail as e:
                     failed = failed or e
-            elif key == '_yatiml_extra':
-                raise _Unspec('attribute named like a special parameter')
             elif c.get('extra'):
+                # (also for a key that is called self or _yatiml_extra: it is
+                # an unknown attribute like any other)
                 self.rule('extra-attribute')
                 try:
                     extras[key] = self.plain(vn)
